@@ -176,3 +176,83 @@ Definition table_beh (tbl : list (Z * list script)) : behaviour :=
 Definition obs_of (res : st * list entry * bool) : list Z :=
   let '(_, log, alive) := res in
   (if alive then 1 else 0) :: concat (map (fun e => [e_cb e; e_pk e]) (rev log)).
+
+(* ================================================================================================
+   Table operations from ANOTHER THREAD while the dispatcher is inside a dispatch.
+   Granularity: the other thread(s) can act at the hand-over points of a dispatch — between two
+   dispatches, right after Caller.call copied its list, after each packet_received callback, right after
+   the list of matching registrations was built, after each port callback — and perform any operations
+   there (an exception of such an operation stays in that thread).  `ext` says what is done where. *)
+Inductive point :=
+| PStart (n : Z)                    (* before packet n is fetched *)
+| PAllSnap (n : Z)                  (* Caller.call took its copy, no packet_received callback called yet *)
+| PAfterAll (n : Z) (k : nat)       (* after the k-th packet_received callback (k = 1, 2, ...) *)
+| PSnap (n : Z)                     (* the matching registrations are collected, no port callback called yet *)
+| PAfterPort (n : Z) (k : nat).     (* after the k-th port callback *)
+
+Definition ext_sched := point -> script.
+
+Fixpoint run_ext (s : st) (sc : script) : st :=
+  match sc with
+  | [] => s
+  | o :: sc' => run_ext (fst (run_op s o)) sc'
+  end.
+
+Fixpoint call_all_x (beh : behaviour) (ext : ext_sched) (n : Z) (k : nat) (snap : list Z) (s : st) (log : list entry)
+  : st * list entry * bool :=
+  match snap with
+  | [] => (s, log, true)
+  | c :: rest =>
+      let log' := EAll c n :: log in
+      let (s', raised) := run_script s (beh log' c) in
+      if raised then (s', log', false)
+      else call_all_x beh ext n (S k) rest (run_ext s' (ext (PAfterAll n k))) log'
+  end.
+
+Fixpoint call_ports_x (beh : behaviour) (ext : ext_sched) (n : Z) (k : nat) (snap : list reg) (s : st) (log : list entry)
+  : st * list entry :=
+  match snap with
+  | [] => (s, log)
+  | r :: rest =>
+      let log' := EPort r n :: log in
+      let (s', _) := run_script s (beh log' (r_cb r)) in
+      call_ports_x beh ext n (S k) rest (run_ext s' (ext (PAfterPort n k))) log'
+  end.
+
+(* the table as it stands at the instant the matching registrations are collected *)
+Definition snap_state (beh : behaviour) (ext : ext_sched) (n : Z) (s : st) (log : list entry) : st * list entry * bool :=
+  let s0 := run_ext s (ext (PStart n)) in
+  call_all_x beh ext n 1 (alls s0) (run_ext s0 (ext (PAllSnap n))) log.
+
+Definition dispatch_x (beh : behaviour) (ext : ext_sched) (n h : Z) (s : st) (log : list entry) : st * list entry * bool :=
+  let '(s1, log1, alive) := snap_state beh ext n s log in
+  if alive then
+    let (s2, log2) := call_ports_x beh ext n 1 (filter (matches h) (cbs s1)) (run_ext s1 (ext (PSnap n))) log1 in
+    (s2, log2, true)
+  else (s1, log1, false).
+
+Fixpoint run_x (beh : behaviour) (ext : ext_sched) (n : Z) (hs : list Z) (s : st) (log : list entry)
+  : st * list entry * bool :=
+  match hs with
+  | [] => (s, log, true)
+  | h :: rest =>
+      let '(s', log', alive) := dispatch_x beh ext n h s log in
+      if alive then run_x beh ext (n + 1) rest s' log' else (s', log', false)
+  end.
+
+(* schedules given by a table, for the correspondence step: (kind, n, k) -> script *)
+Definition point_code (p : point) : Z * Z * Z :=
+  match p with
+  | PStart n => (0, n, 0) | PAllSnap n => (1, n, 0) | PAfterAll n k => (2, n, Z.of_nat k)
+  | PSnap n => (3, n, 0) | PAfterPort n k => (4, n, Z.of_nat k)
+  end.
+
+Fixpoint lookup_ext (c : Z * Z * Z) (tbl : list (Z * Z * Z * script)) : script :=
+  match tbl with
+  | [] => []
+  | (a, b, d, sc) :: tbl' =>
+      let '(x, y, z) := c in
+      if (a =? x) && (b =? y) && (d =? z) then sc else lookup_ext c tbl'
+  end.
+
+Definition table_ext (tbl : list (Z * Z * Z * script)) : ext_sched := fun p => lookup_ext (point_code p) tbl.
